@@ -319,6 +319,7 @@ func init() {
 			{"codec-guards", "where the encoder and the decoder of one type both guard wire operations by comparing the same field with constants, the two sets of constants agree", ruleCodecGuards},
 			{"decode-context", "a decoder of a type whose wire shape depends on a context field (read, never assigned by its DecodeBinary: the consensus state-root flag) hands the context on to every nested value of a context-dependent type it creates", ruleDecodeContext},
 			{"compress-frame", "the destination of lz4.CompressBlock is sized by lz4.CompressBlockBound of the same source (otherwise incompressible input is silently sent as an empty body); the buffer of lz4.UncompressBlock has a bounded announced size and the produced size is compared with it", ruleCompressFrame},
+			{"decoder-panics", "no function reachable (resolved call graph) from a binary decoder - every DecodeBinary method, stackitem.Deserialize* - contains an explicit panic, except at tabled sites only a programming error can reach", ruleDecoderPanics},
 			{"bounded-alloc", "in every binary decoder a make() sized by a decoded integer is gated by an ordering comparison of that integer", ruleBoundedAlloc},
 			{"varint-agreement", "the variable-length integer writer (io.PutVarUint), the length-prefix estimator called by io.GetVarSize and the reader (ReadVarUint), folded over the source for the sixteen values around the format's borders, agree: the writer's width is the minimal one, the estimator returns the same width, the reader takes after each prefix the payload the writer puts", ruleVarintAgreement},
 			{"signed-count", "a count decoded as a 64-bit unsigned integer is compared with its limit before it is converted to a signed type, or the signed value is tested against zero: otherwise 2^64-1 becomes -1 and passes every upper-bound test (panic in make, silently empty loop, reader maximum switched off)", ruleSignedCount},
